@@ -30,7 +30,7 @@ Theorem C14_readonly_inert_refuted : exists m cs,
   results (init m None) cs = [ROk; ROk; ROk] /\
   disk (state_after (init m None) cs) <> None.
 Proof.
-  exists ForReading, [CBegin; CNewBtree; CCommit false false]. vm_compute.
+  exists ForReading, [CBegin; CNewBtree; CCommit PNone false]. vm_compute.
   split; [discriminate|]. split; [reflexivity|discriminate].
 Qed.
 Print Assumptions C14_readonly_inert_refuted.
@@ -168,7 +168,7 @@ Theorem C14_uncommitted_inert_refuted : exists d0 cs,
   disk (state_after (init ForWriting d0) cs) <> d0 /\ ~ disk_wf (disk (state_after (init ForWriting d0) cs)).
 Proof.
   exists (Some (1, [(1%N, 10%N)])),
-    [CBegin; COpenBtree; CUpdate 1 102 false; CP1 false; CRemove 1 false; CRollback RbNone].
+    [CBegin; COpenBtree; CUpdate 1 102 false; CP1 PNone; CRemove 1 false; CRollback RbNone].
   vm_compute. repeat split; try discriminate.
 Qed.
 Print Assumptions C14_uncommitted_inert_refuted.
@@ -183,7 +183,7 @@ Theorem C14_repeated_phase1_loses_adds_refuted : exists d0 cs,
   committed (state_after (init ForWriting d0) cs) = true /\
   disk (state_after (init ForWriting d0) cs) = Some (2, [(1%N, 10%N)]).
 Proof.
-  exists (Some (1, [(1%N, 10%N)])), [CBegin; CNewBtree; CAdd 2 102 false; CP1 false; CCommit false false].
+  exists (Some (1, [(1%N, 10%N)])), [CBegin; CNewBtree; CAdd 2 102 false; CP1 PNone; CCommit PNone false].
   vm_compute. repeat split.
 Qed.
 Print Assumptions C14_repeated_phase1_loses_adds_refuted.
@@ -201,7 +201,7 @@ Print Assumptions C14_uncommitted_inert_partial.
 (* non-vacuity: the model is not inert — an ordinary writer life cycle stores an item, after
    which Rollback fails; and the same calls in a read-only transaction store nothing. *)
 Example C14_nonvacuous :
-  let cs := [CBegin; CNewBtree; CAdd 1 5 false; CCommit false false; CRollback RbNone] in
+  let cs := [CBegin; CNewBtree; CAdd 1 5 false; CCommit PNone false; CRollback RbNone] in
   run (init ForWriting None) cs = ([ROk; ROk; ROk; ROk; RErr], state_after (init ForWriting None) cs) /\
   disk (state_after (init ForWriting None) cs) = Some (1, [(1%N, 5%N)]) /\
   results (init ForReading None) cs = [ROk; ROk; RErr; RErr; ROk] /\
